@@ -60,14 +60,20 @@ AuxHashMap<A>* AuxHashMap<A>::deserialize(const void* bytes, size_t len,
   const uint32_t configKmask = (1 << lgConfigK) - 1;
 
   AuxHashMap<A>* auxHashMap;
+  typedef std::unique_ptr<AuxHashMap<A>, std::function<void(AuxHashMap<A>*)>> aux_hash_map_ptr;
+  aux_hash_map_ptr aux_ptr(nullptr, make_deleter()); // owns the map while entries are added (mustAdd throws on a duplicate slot)
   const uint32_t* auxPtr = static_cast<const uint32_t*>(bytes);
   if (srcCompact) {
     if (len < auxCount * sizeof(int)) {
       throw std::out_of_range("Input array too small to hold AuxHashMap image");
     }
     auxHashMap = new (ahmAlloc(allocator).allocate(1)) AuxHashMap<A>(lgArrInts, lgConfigK, allocator);
+    aux_ptr.reset(auxHashMap);
     for (uint32_t i = 0; i < auxCount; ++i) {
       const uint32_t pair = auxPtr[i];
+      if (pair == hll_constants::EMPTY) {
+        throw std::invalid_argument("Possible corruption: empty pair in a compact AuxHashMap image");
+      }
       const uint32_t slotNo = HllUtil<A>::getLow26(pair) & configKmask;
       const uint8_t value = HllUtil<A>::getValue(pair);
       auxHashMap->mustAdd(slotNo, value);
@@ -78,6 +84,7 @@ AuxHashMap<A>* AuxHashMap<A>::deserialize(const void* bytes, size_t len,
       throw std::out_of_range("Input array too small to hold AuxHashMap image");
     }
     auxHashMap = new (ahmAlloc(allocator).allocate(1)) AuxHashMap<A>(lgArrInts, lgConfigK, allocator);
+    aux_ptr.reset(auxHashMap);
     for (uint32_t i = 0; i < itemsToRead; ++i) {
       const uint32_t pair = auxPtr[i];
       if (pair == hll_constants::EMPTY) { continue; }
@@ -87,12 +94,11 @@ AuxHashMap<A>* AuxHashMap<A>::deserialize(const void* bytes, size_t len,
     }
   }
 
-  if (auxHashMap->getAuxCount() != auxCount) {
-    make_deleter()(auxHashMap);
+  if (auxHashMap->getAuxCount() != auxCount) { // aux_ptr releases the map
     throw std::invalid_argument("Deserialized AuxHashMap has wrong number of entries");
   }
 
-  return auxHashMap;                                    
+  return aux_ptr.release();
 }
 
 template<typename A>
@@ -115,6 +121,9 @@ AuxHashMap<A>* AuxHashMap<A>::deserialize(std::istream& is, uint8_t lgConfigK,
   if (srcCompact) {
     for (uint32_t i = 0; i < auxCount; ++i) {
       const auto pair = read<int>(is);
+      if (!is.good() || pair == static_cast<int>(hll_constants::EMPTY)) {
+        throw std::invalid_argument("Possible corruption: empty pair in a compact AuxHashMap image");
+      }
       uint32_t slotNo = HllUtil<A>::getLow26(pair) & configKmask;
       uint8_t value = HllUtil<A>::getValue(pair);
       auxHashMap->mustAdd(slotNo, value);
